@@ -28,7 +28,7 @@
 From Coq Require Import Lia Permutation.
 From ChitchatModel Require Import Base SMap Ids Bytes Params NodeState Stream DeltaWire Message Cluster
   FD Chitchat World SMap_lemmas NodeState_lemmas Builder_lemmas Agreement Inv DeltaRefine Compute_lemmas
-  Prefix_lemmas NodeInv Codec_lemmas Emit_lemmas Truth NodeTruth Weak Reach Progress Quiet Potential.
+  Prefix_lemmas NodeInv Codec_lemmas Emit_lemmas Truth NodeTruth Weak Reach Progress Quiet Potential GExec.
 
 Section C01.
   Variable zc : bytes -> option bytes.
@@ -246,7 +246,50 @@ Example C01_example :
   end.
 Proof. vm_compute. split; reflexivity. Qed.
 
+(* ---- the known class KF-2 (wasted offer), exhibited: without the quiet premise the progress
+        statement is false.  Nodes a (0), b (1), X (2), failure detector with a 100 s dead-node grace
+        period.  X writes 40 keys of 2,000 incompressible bytes (more than one datagram), everybody
+        syncs, X falls silent; a evaluates liveness every second and, 80 s later, has X scheduled for
+        deletion (dead for more than half the grace period) while b, which never evaluated, still
+        lists X as live.  b writes a new key.  Five complete loss-free handshakes a<->b later a's
+        copy of b is still at version 1 while b is at 2: a omits X from its digest, b therefore
+        serves X first (an unknown member has top priority) and fills the datagram with it, a
+        discards it. ---- *)
+Definition kf2_fdc := mkFdCfg 8 1 1000 10000000000 5000000000 100000000000 50000000000.
+Definition kf2_cfg (nm : byte) := mkCfg (mkId [nm] 0 (V4 1 1)) [x63] kf2_fdc 1000000000 PNone false.
+Definition kf2_idB := mkId [x42] 0 (V4 1 1).
+Definition kf2_idX := mkId [x58] 0 (V4 1 1).
+Definition kf2_hs (a b : nat) := [OSyn a; ODeliver b 0%nat []; ODeliver a 0%nat []; ODeliver b 0%nat []].
+Definition kf2_sec : Z := 1000000000%Z.
+Definition kf2_keys : list byte :=
+  [x30;x31;x32;x33;x34;x35;x36;x37;x38;x39;x61;x62;x63;x64;x65;x66;x67;x68;x69;x6a;x6b;x6c;x6d;x6e;x6f;x70;x71;x72;x73;x74;x75;x76;x77;x78;x79;x7a;x41;x42;x43;x44].
+Definition kf2_round : list gop :=
+  kf2_hs 2 0 ++ kf2_hs 2 1 ++ kf2_hs 0 1 ++ [OTick kf2_sec; OEval 0 None; OEval 1 None].
+Fixpoint kf2_rep {A} (n : nat) (l : list A) : list A := match n with O => [] | S k => l ++ kf2_rep k l end.
+Definition kf2_prefix : list gop :=
+  [OJoin (kf2_cfg x41) []; OJoin (kf2_cfg x42) []; OJoin (kf2_cfg x58) []; OSet 1 [x69] [x30]]
+  ++ map (fun k => OSet 2 [k] (repeat k 2000)) kf2_keys
+  ++ kf2_rep 6 kf2_round
+  ++ kf2_rep 80 (kf2_hs 0 1 ++ [OTick kf2_sec; OEval 0 None])
+  ++ [OSet 1 [x6e] [x31]].
+Definition kf2_obs (g : gstate) :=
+  (option_map c_max (copy_at g 0 kf2_idB), option_map c_max (copy_at g 1 kf2_idB),
+   option_map (fun n => scheduled (w_now (g_w g)) n) (node_at g 0),
+   option_map (fun n => scheduled (w_now (g_w g)) n) (node_at g 1)).
+
+Example C01_wasted_offer_witness :
+  option_map kf2_obs (grun ex_zc false kf2_prefix) = Some (Some 1, Some 2, Some [kf2_idX], Some [])
+  /\ option_map kf2_obs (grun ex_zc false (kf2_prefix ++ kf2_rep 5 (kf2_hs 0 1))) = Some (Some 1, Some 2, Some [kf2_idX], Some []).
+Proof. split; vm_compute; reflexivity. Qed.
+
+(* both states are reachable (non-strict relation; no weak acceptance is involved) *)
+Theorem C01_wasted_offer_states_reachable : forall g,
+  grun ex_zc false kf2_prefix = Some g \/ grun ex_zc false (kf2_prefix ++ kf2_rep 5 (kf2_hs 0 1)) = Some g ->
+  reachable ex_zc false g.
+Proof. intros g [H|H]; eapply grun_reachable; exact H. Qed.
+
 Print Assumptions C01_deliverable_iff_ahead.
+Print Assumptions C01_wasted_offer_states_reachable.
 Print Assumptions C01_first_stale_member_is_offered.
 Print Assumptions C01_exchange_progress.
 Print Assumptions C01_quiet_exchange_progress.
